@@ -27,6 +27,7 @@ UNIT_PROPS = {
     "wire_codec": ["C15"],
     "term_line": ["C26"],
     "cob_evaluate": ["C06"],
+    "refs_text": ["C20"],
     "fetch_validate": ["C01"],
     "service_inventory": ["C11"],
 }
@@ -80,11 +81,11 @@ PROPS = {
         "not_decided": "Only the Success/Failed gate in run is decided; ensure_threshold in SpecialRefs::pre_validate, special_update in refs.rs (which policy a ref gets) is outside the units; repository::direct (what a policy then does) is under contract in unit fetch_ancestry: a rewind is never applied unless the policy is Allow, a fork is rejected (Reject) or aborts (Abort). repository::ancestry is proved (unit fetch_ancestry) to classify exactly by libgit2's ahead/behind counts of the peeled commits (Equal / Ahead = strictly descends / Behind = rewind / Diverged = anything else); libgit2's graph_ahead_behind itself is assumed. 'Leaves local storage unchanged' on Failed is decided as 'repository::update is not called'; Doc::threshold() >= 1 is proved in unit identity.",
     },
     "C20": {
-        "vx": ["refs_verify"],
+        "vx": ["refs_verify", "refs_text"],
         "kx": [],
-        "technique": "Verus contract on the extracted SignedRefs::<Unverified>::{verify, verified}: Ok <==> ed25519-valid(claimed key, canonical(refs), signature) and identity-root binding; accepted value carries exactly the verified refs, key and signature",
-        "explanation": "verify returns Ok only when PublicKey::verify over Refs::canonical(self.refs) succeeds for the claimed id, and the result's refs/signature/id equal the inputs (no other refs can be accepted under that signature).",
-        "not_decided": "First sentence of C20 (canonical text parses back to the same set) is string/iterator code outside Verus: not decided. 'Changing any ref makes verification fail' reduces to ed25519 unforgeability and injectivity of canonical(): assumed, not proved.",
+        "technique": "Verus contract on the extracted SignedRefs::<Unverified>::{verify, verified}: Ok <==> ed25519-valid(claimed key, canonical(refs), signature) and identity-root binding; accepted value carries exactly the verified refs, key and signature; contracts on the extracted Refs::{canonical, from_canonical} against spec functions canon_text / parse_lines over an ASSUMED model of the text primitives, and a round-trip lemma (induction) over those two contracts",
+        "explanation": "Refs::canonical is proved to return exactly one `<hex oid> <name>\\n` line per entry of the map, in iteration order, nothing skipped; Refs::from_canonical is proved to return, on Ok, exactly parse_lines(lines of the input): every line split at its FIRST space, nothing trimmed, every non-zero oid inserted, later lines winning; lemma_roundtrip proves parse_lines(lines(canon_text(order(m)))) == m for every map of valid names and non-zero oids. verify returns Ok only when PublicKey::verify over Refs::canonical(self.refs) succeeds for the claimed id, and the result's refs/signature/id equal the inputs (no other refs can be accepted under that signature).",
+        "not_decided": "The round trip is relative to the ASSUMED text model (unit refs_text header): BufRead::lines undoes one-\\n-terminated-line-each for lines without \\n/\\r, Display/FromStr of Oid are inverse and hex has no space, a valid RefString has no newline and re-validates to itself, BTreeMap::iter yields every entry once in an order determined by the contents, String::into_bytes is UTF-8 encoding. 'Changing any ref makes verification fail' reduces to ed25519 unforgeability and injectivity of canonical(): assumed, not proved.",
     },
     "C19": {
         "vx": ["identity", "cob_identity"],
